@@ -54,11 +54,14 @@ pub fn any_honest_at<TC: Configuration>(nmax: u64, pmode: u8, epoch: Option<u64>
         }
         v += 1;
     }
-    let pv: u64 = kani::any();
-    let pep: u64 = kani::any();
-    if pmode != 0 {
+    let (pv, pep) = if pmode != 0 {
+        let pv: u64 = kani::any();
+        let pep: u64 = kani::any();
         kani::assume(pv >= 1 && pv < n && pep <= EMAX && pep != ep[pv as usize]);
-    }
+        (pv, pep)
+    } else {
+        (0, 0)
+    };
     dirmodel::install::<TC>(n, val, nonce, ep, pmode, pv, pep);
     (n, val, ep, e)
 }
@@ -99,9 +102,9 @@ fn lookup_sound<TC: Configuration>(nmax: u64, vlen: usize, nlen: usize) {
         value: AkdValue(bytes_of_len(vlen)),
         version: kani::any(),
         existence_vrf_proof: Vec::new(),
-        existence_proof: membership_proof::<TC>(any_node_label(), any_digest()),
+        existence_proof: membership_proof::<TC>(any_node_label(), crate::c07l2::any_leaf_hash()),
         marker_vrf_proof: Vec::new(),
-        marker_proof: membership_proof::<TC>(any_node_label(), any_digest()),
+        marker_proof: membership_proof::<TC>(any_node_label(), crate::c07l2::any_leaf_hash()),
         freshness_vrf_proof: Vec::new(),
         freshness_proof: nonmembership_proof::<TC>(any_node_label()),
         commitment_nonce: bytes_of_len(nlen),
